@@ -218,6 +218,33 @@ const STRINGS: &[&str] = &[
     "a, b",
 ];
 
+/// Line shapes a multi-line string is assembled from: empty, blank, text at several indentations,
+/// text with trailing blanks.
+pub const LINE_SHAPES: &[&str] = &["", " ", "  ", "a", " a", "  b", "\tc", "d ", "    e", "\"q"];
+
+/// The `i`-th string of `n` lines over LINE_SHAPES (joined with `\n`).
+pub fn nth_line_shape_string(mut i: u64, n: usize) -> String {
+    let mut parts = Vec::with_capacity(n);
+    for _ in 0..n {
+        parts.push(LINE_SHAPES[(i % LINE_SHAPES.len() as u64) as usize]);
+        i /= LINE_SHAPES.len() as u64;
+    }
+    parts.join("\n")
+}
+
+/// A random string of 2-5 lines over LINE_SHAPES, sometimes with every non-empty line indented
+/// alike (empty lines stay empty).
+pub fn line_shape_string(rng: &mut Rng) -> String {
+    let n = rng.range(2, 5);
+    let total = (LINE_SHAPES.len() as u64).pow(n as u32);
+    let s = nth_line_shape_string(rng.below(total as usize) as u64, n);
+    if rng.chance(1, 3) {
+        let ind = rng.pick_str(&[" ", "  ", "\t"]);
+        return s.split('\n').map(|l| if l.is_empty() { String::new() } else { format!("{ind}{l}") }).collect::<Vec<_>>().join("\n");
+    }
+    s
+}
+
 const INTS: &[&str] = &["0", "-0", "1", "-1", "7", "42", "2147483647", "-2147483648", "9999999999999999999999"];
 const FLOATS: &[&str] = &["0.0", "-0.0", "1e5", "1E5", "1.5e+10", "1.0E-3", "0e0", "123.456", "-7.25", "1e-7", "6.02E23"];
 
@@ -286,12 +313,16 @@ impl<'r> AstGen<'r> {
     }
 
     pub fn string(&mut self) -> String {
+        if self.rng.chance(1, 4) {
+            return line_shape_string(self.rng);
+        }
         self.rng.pick_str(STRINGS).to_string()
     }
 
     pub fn description(&mut self) -> Option<Node<str>> {
         if self.maybe() {
-            Some(Node::new_str(self.rng.pick_str(STRINGS)))
+            let s = self.string();
+            Some(Node::new_str(&s))
         } else {
             None
         }
